@@ -306,7 +306,8 @@ class AdaptiveIsotropicSolidAngleSupport(BaseAdaptiveSupport):
         state = {'nsteps': self._nsteps,
                  'random_state': self.random_state,
                  'start_step': self.start_step,
-                 'kappa': self.kappa}
+                 'kappa': self.kappa,
+                 'log_kappa': self._log_kappa}
         return state
 
     def set_state(self, state):
@@ -314,8 +315,9 @@ class AdaptiveIsotropicSolidAngleSupport(BaseAdaptiveSupport):
         self._nsteps = state['nsteps']
         self.kappa = state['kappa']
         self.start_step = state['start_step']
-        # store the log and the normalisation constant
-        self._log_kappa = numpy.log(self.kappa)
+        # the log is what gets adapted; log(exp(x)) is not always x, so it
+        # has to be restored rather than recalculated from kappa
+        self._log_kappa = state['log_kappa']
         self.norm = self._normalisation(self.kappa)
 
 
